@@ -4,7 +4,7 @@ CONSTANTS
   MaxM = 3
   NT = 2
   ModeVals = {1, 2, 3, 9}
-  Dev = "taskfirst"
+  Dev = "misfile"
 INVARIANT LawAccept
 INVARIANT LawPairs
 INVARIANT LawModes
